@@ -3,6 +3,7 @@ import json, os, re, shutil, sys, time
 sys.path.insert(0, os.path.dirname(os.path.abspath(__file__)))
 import vlib
 import ledger_common as lc
+import slash_stage
 
 PID = "C14"
 GUARDS = ["G_SameView", "G_BothVerified", "G_PayloadsDiffer", "G_PhaseAfterPropose"]
@@ -71,6 +72,7 @@ def main(tier):
         for rec in nonconf[:3]:
             v.divergence("ProcessDSE answer differs from EvidenceDef!Implicated without implicating an honest validator: implicated=%s err=%s a=%s b=%s"
                          % (rec["implicated"], rec["err"][:60].replace("\n", " "), rec["a"], rec["b"]))
+        sl = slash_stage.run(v, work, tier, sd, nodex)
         impl = sum(1 for x in recs if x["implicated"])
         if impl == 0:
             raise vlib.Infra("vacuous: the real code never implicated the Byzantine validator")
@@ -82,11 +84,15 @@ def main(tier):
                     "evidence_objects": len(recs), "evidence_implicating": impl, "ledger_double_sign_reports": dbl,
                     "model_divergences": v.divergences, "violation_classes": {k: len(x) for k, x in classes.items()},
                     "known_findings_reproduced": [k for k, _ in v.known], "samples": [{k: recs[0][k] for k in ("a", "b", "implicated", "err")}]}
+        coverage.update(sl)
+        coverage["traces_validated_against_impl"] = 3
         vlib.write_evidence(PID, tier, "model_checking", coverage, time.time() - t0, len(v.violations),
                             ["BLS signatures unforgeable: evidence is assembled only from signatures that the recorded vote log contains",
-                             "expired evidence and the per-committee slash cap (protocol feature 2) are not exercised"])
-        print("C14 %s: design %d+%d states; %d evidence objects (%d implicating), %d ledger double-sign reports validated by TLC; classes %s; non-conforming %d"
-              % (tier, r1.distinct, r2.distinct, len(recs), impl, dbl, {k: len(x) for k, x in classes.items()}, len(nonconf)))
+                             "the per-committee cap is judged on blocks whose only stake changes are slashes (own-chain certificate at block begin, nested-chain certificate-results transactions with failing transfers between them)",
+                             "expired evidence is not exercised"])
+        print("C14 %s: design %d+%d states; %d evidence objects (%d implicating), %d ledger double-sign reports validated by TLC; slash budget: %d design states, %d real block states (%d reach the cap); classes %s; non-conforming %d"
+              % (tier, r1.distinct, r2.distinct, len(recs), impl, dbl, sl["slash_states"], sl["slash_block_states_validated"], sl["slash_blocks_reaching_cap"],
+                 dict({k: len(x) for k, x in classes.items()}, **{k: n for k, n in sl["slash_violation_classes"].items() if n}), len(nonconf)))
         return v.exit_code()
     finally:
         shutil.rmtree(work, ignore_errors=True)
